@@ -25,6 +25,9 @@ var c02GuardExceptions = map[string]string{
 	"idx:(*profile.Profile).postDecode:profile.Sample.Location[φrangeindex+1]#2":            "s.Location was just set to locBuffer[:len(s.locationIDX)] and the loop ranges over s.locationIDX",
 	"idx:profile.init$5:profile.Sample.labelX[len(profile.Sample.labelX)]":                  "n is the length before the append of one element in the preceding statement, so n < len afterwards",
 	"idx:profile.init$23:profile.Location.Line[len(profile.Location.Line)]":                 "n is the length before the append of one element in the preceding statement, so n < len afterwards",
+	"idx:(*profile.Profile).preEncode:profile.Sample.NumUnit[…][φrangeindex+1]":             "NumUnit[k] is either empty (tested) or as long as NumLabel[k]: postDecode pads every unit list to the value count (checked structurally as C01-R6) and mapSample copies lists of equal length",
+	"idx:(*profile.Profile).preEncode:profile.Sample.locationIDX[φrangeindex+1]":            "s.locationIDX was just made with len(s.Location), the slice the loop ranges over",
+	"idx:(*profile.Profile).preEncode:profile.Profile.stringTable[*ssa.Next#2]":             "stringTable is made with len(strings) and every value of the strings map is an index handed out by addString as len(strings) at insertion, hence < len(strings)",
 	"idx:profile.parseCPUSamples:make[φi]":                                                  "addrs is make([]uint64, nstk) and the loop runs for i < int(nstk)",
 	"idx:profile.parseCPUSamples:make[0]":                                                   "evaluated only when nstk == 1 (short-circuit &&), and addrs has nstk elements",
 	"idx:profile.parseThread:profile.Sample.Value[0]":                                       "every sample of a thread profile is appended by parseThread itself with Value: []int64{1}",
@@ -188,9 +191,28 @@ func runC02(c *Check) {
 		c.undecided("C02-R2", "assert:count", "", fmt.Sprintf("only %d decoder-slot assertions found", nAssert))
 	}
 
-	// ---- R3 bounds
-	c.guardRule("C02-R3", func(f *ssa.Function) bool { return onPath[f] }, false, c02GuardExceptions)
+	// ---- R3 bounds: the parse path, and the write path a parsed profile must survive
+	onWrite := map[*ssa.Function]bool{}
+	var wroots []*ssa.Function
+	for _, n := range []string{"serialize", "(*Profile).Copy", "(*Profile).Write", "(*Profile).WriteUncompressed"} {
+		if f := c.anchorFn("C02-R3", "profile", n); f != nil {
+			wroots = append(wroots, f)
+		}
+	}
+	_, worder := p.MG().Reach(wroots, func(f *ssa.Function) bool { return fnPkgPath(f) != modPath+"/profile" })
+	for _, f := range worder {
+		// the byte-buffer arithmetic of the encode* helpers is codec arithmetic (not decided,
+		// see C01); checked here are the functions that index the profile's own data
+		if f.Blocks != nil && f.Synthetic == "" && !onPath[f] && (f.Name() == "preEncode" || f.Name() == "encode") {
+			onWrite[f] = true
+		}
+	}
+	c.Extra["write_path_functions"] = len(onWrite)
+	c.guardRule("C02-R3", func(f *ssa.Function) bool { return onPath[f] || onWrite[f] }, false, c02GuardExceptions)
 	c.Floor("C02-R3", 150)
+
+	// the parsed unit lists satisfy the length invariant the write path relies on
+	c.unitPadding("C02-R3")
 
 	// ---- R4 typestate of the wire buffer
 	for _, f := range pathFns {
